@@ -16,20 +16,37 @@ open PrologVerif PrologVerif.VM PrologVerif.DecompileCompile PrologVerif.Activat
 /-! ## continuations as goal lists -/
 
 /-- the pending goals of a continuation: each with the cut parent of the activation it belongs to -/
-inductive ContGoals (tmpl : Term) (max : Nat) : Cont → List (Term × Nat) → Prop
-  | collect : ContGoals tmpl max (.collect tmpl max) []
+inductive ContGoals (s : Bool) (tmpl : Term) (max : Nat) : Cont → List (Term × Nat) → Prop
+  | collect : ContGoals s tmpl max (.collect tmpl max) []
   | exec {tbl vars : List Nat} {ρ : Nat → Nat} {ops : List Op} {gs : List Rep} {cp : Nat} {k : Cont}
       {G : List (Term × Nat)} :
       BodySem tbl ops gs → Renames tbl vars ρ →
-      (∀ g ∈ gs, g = .atom "!" ∨ hornGoal (goalTerm g) = true) →
-      ContGoals tmpl max k G →
-      ContGoals tmpl max (.exec (ops ++ [.exit]) vars cp k)
+      (∀ g ∈ gs, g = .atom "!" ∨ stepGoal s (goalTerm g) = true) →
+      ContGoals s tmpl max k G →
+      ContGoals s tmpl max (.exec (ops ++ [.exit]) vars cp k)
         (gs.map (fun g => ((goalTerm g).rename ρ, cp)) ++ G)
 
 theorem hornGoal_rename (ρ : Nat → Nat) (t : Term) : hornGoal (t.rename ρ) = hornGoal t := by
   cases t with
   | app f as => simp [Term.rename, Term.subst, hornGoal, Args.length_subst]
   | _ => rfl
+
+theorem isCall1_rename (ρ : Nat → Nat) (t : Term) : isCall1 (t.rename ρ) = isCall1 t := by
+  cases t with
+  | app f as =>
+    cases as with
+    | nil => simp [Term.rename, Term.subst, Args.subst, isCall1]
+    | cons a as' =>
+      cases as' with
+      | nil =>
+        by_cases hf : f = "call"
+        · subst hf; simp [Term.rename, Term.subst, Args.subst, isCall1]
+        · simp [Term.rename, Term.subst, Args.subst, isCall1, hf]
+      | cons _ _ => simp [Term.rename, Term.subst, Args.subst, isCall1]
+  | _ => rfl
+
+theorem stepGoal_rename (s : Bool) (ρ : Nat → Nat) (t : Term) : stepGoal s (t.rename ρ) = stepGoal s t := by
+  simp [stepGoal, hornGoal_rename, isCall1_rename]
 
 /-- the state after the query's hand-off recorded an answer -/
 def recordAnswer (tmpl : Term) (env : Env) (m : MS) : MS :=
@@ -40,13 +57,13 @@ def cutPromise (pc : List Op) (vars : List Nat) (k : Cont) (env : Env) (cp : Nat
   { delayed := [.afterCut pc vars k [] [] env cp], cutParent := some cp }
 
 /-- **one step of a continuation**: record an answer, arrive at the first goal, or cut -/
-theorem cont_step {tmpl : Term} {max : Nat} {K : Cont} {G : List (Term × Nat)} (h : ContGoals tmpl max K G) :
+theorem cont_step {s : Bool} {tmpl : Term} {max : Nat} {K : Cont} {G : List (Term × Nat)} (h : ContGoals s tmpl max K G) :
     ∀ (fuel : Nat) (env : Env) (m : MS) (res : Pr × MS), applyCont fuel K env m = some res →
     (G = [] ∧ res = (if (recordAnswer tmpl env m).user.answers.length ≥ max then okP else failP,
         recordAnswer tmpl env m)) ∨
-    (∃ g cp G' K' fuel', G = (g, cp) :: G' ∧ ContGoals tmpl max K' G' ∧ fuel' < fuel ∧ hornGoal g = true ∧
+    (∃ g cp G' K' fuel', G = (g, cp) :: G' ∧ ContGoals s tmpl max K' G' ∧ fuel' < fuel ∧ stepGoal s g = true ∧
       arrive fuel' (functorName g) (argList g) K' env m = some res) ∨
-    (∃ cp G' pc vars k, G = (.atom "!", cp) :: G' ∧ ContGoals tmpl max (.exec pc vars cp k) G' ∧
+    (∃ cp G' pc vars k, G = (.atom "!", cp) :: G' ∧ ContGoals s tmpl max (.exec pc vars cp k) G' ∧
       res = (cutPromise pc vars k env cp, m)) := by
   induction h with
   | collect =>
@@ -77,7 +94,7 @@ theorem cont_step {tmpl : Term} {max : Nat} {K : Cont} {G : List (Term × Nat)} 
           · exact Or.inr (Or.inr ⟨cp', G', pc, vars', k', by simpa using h1, h2, h3⟩)
       | cons g gs' =>
         obtain ⟨seg, ops', rfl, _, hb', hcutc, hcall⟩ := first_goal hsem
-        have hk' : ContGoals tmpl max (.exec (ops' ++ [.exit]) vars cp k)
+        have hk' : ContGoals s tmpl max (.exec (ops' ++ [.exit]) vars cp k)
             (gs'.map (fun g => ((goalTerm g).rename ρ, cp)) ++ G) :=
           .exec hb' hren (fun g' hg' => hgs g' (by simp [hg'])) hk
         by_cases hc : g = .atom "!"
@@ -85,14 +102,14 @@ theorem cont_step {tmpl : Term} {max : Nat} {K : Cont} {G : List (Term × Nat)} 
           have := hcutc rfl vars n [.exit] k env cp m res hrun
           refine Or.inr (Or.inr ⟨cp, _, ops' ++ [.exit], vars, k, by simp [goalTerm, Rep.abs, Term.rename, Term.subst], hk', ?_⟩)
           rw [this]; rfl
-        · have hh : hornGoal (goalTerm g) = true := by
+        · have hh : stepGoal s (goalTerm g) = true := by
             rcases hgs g (by simp) with h | h
             · exact absurd h hc
             · exact h
           obtain ⟨fuel', hf', harr⟩ := hcall hc vars ρ hren n [.exit] k env cp m res hrun
           refine Or.inr (Or.inl ⟨(goalTerm g).rename ρ, cp, _, .exec (ops' ++ [.exit]) vars cp k, fuel', by simp,
             hk', by omega, ?_, harr⟩)
-          rw [hornGoal_rename]; exact hh
+          rw [stepGoal_rename]; exact hh
 
 /-! ## the VM's builtin dispatch on the fragment -/
 
@@ -111,6 +128,11 @@ theorem builtin_eq (n : Nat) (x y : Term) (k : Cont) (env : Env) (m : MS) :
       | some (env', .ok) => some (applyCont n k env' m)
       | some _ => some (some (failP, m))
       | none => some none := by
+  rw [builtin]
+  rfl
+
+theorem builtin_call1 (n : Nat) (g : Term) (k : Cont) (env : Env) (m : MS) :
+    builtin (n + 1) "call" [g] k env m = some (some (callGoal g k env m)) := by
   rw [builtin]
   rfl
 
